@@ -307,7 +307,7 @@ def sequences_harness(eng, sp, inst, desc):
         from job_shop_lib.dispatching import Dispatcher as _Disp
 
         budget = [8 * desc.n_ops * (desc.n_machines + 1) + 50]
-        orig_ready = _Disp.is_operation_ready
+        orig_ready = getattr(_Disp, "is_operation_ready", None)
 
         def counted(self, operation, _orig=orig_ready):
             budget[0] -= 1
@@ -315,7 +315,8 @@ def sequences_harness(eng, sp, inst, desc):
                 raise Hang()
             return _orig(self, operation)
 
-        _Disp.is_operation_ready = counted
+        if orig_ready is not None:
+            _Disp.is_operation_ready = counted
         old = signal.signal(signal.SIGALRM, _alarm)
         signal.setitimer(signal.ITIMER_REAL, 120.0)
         try:
@@ -334,7 +335,8 @@ def sequences_harness(eng, sp, inst, desc):
         finally:
             signal.setitimer(signal.ITIMER_REAL, 0)
             signal.signal(signal.SIGALRM, old)
-            _Disp.is_operation_ready = orig_ready
+            if orig_ready is not None:
+                _Disp.is_operation_ready = orig_ready
         key = "C14/job-sequences"
         if err == "hang":
             eng.fail(key + "/hang", f"{seqs}")
